@@ -1261,14 +1261,35 @@ def _array_equal(a, b, equal_nan=False):
     return True
 
 
+def _isclose_entry(x, y, rtol, atol, equal_nan):
+    """numpy's definition, exactly: |x - y| <= atol + rtol * |y| with the tolerances as exact rationals; the comparison is a
+    polynomial inequality like any other, so the path forks on it (the tolerance band is a region of the input space, not noise)"""
+    if isnan_scalar(x) or isnan_scalar(y):
+        return bool(equal_nan and isnan_scalar(x) and isnan_scalar(y))
+    x, y = as_sym_entry(x), as_sym_entry(y)
+    if x.p.has_I() or y.p.has_I():
+        raise EngineError("np.isclose / np.allclose on complex symbolic data")
+    d = x - y
+    if y.is_const():
+        lim = Sym.of(atol) + Sym.of(rtol) * Sym.of(abs(y.const()))
+    else:
+        lim = Sym.of(atol) + Sym.of(rtol) * (y if bool(y >= 0) else -y)
+    return bool(d <= lim) and bool(-d <= lim)
+
+
 @implements(np.allclose)
 def _allclose(a, b, rtol=1e-5, atol=1e-8, equal_nan=False):
-    raise EngineError("np.allclose on symbolic data (tolerance comparison has no exact meaning)")
+    ao, bo = np.broadcast_arrays(obj(a), obj(b))
+    for x, y in zip(ao.flat, bo.flat):
+        if not _isclose_entry(x, y, float(rtol), float(atol), equal_nan):
+            return False
+    return True
 
 
 @implements(np.isclose)
-def _isclose(a, b, **kw):
-    raise EngineError("np.isclose on symbolic data")
+def _isclose(a, b, rtol=1e-5, atol=1e-8, equal_nan=False):
+    r = _map2(lambda x, y: _isclose_entry(x, y, float(rtol), float(atol), equal_nan), a, b)
+    return wrap(r, BOOL) if r.ndim else bool(r[()])
 
 
 @implements(np.may_share_memory, np.shares_memory)
